@@ -188,6 +188,20 @@ def normalisation_guard(ctx, rule="R08.4"):
         got = str(ms)
         okm = len(ms) == 1 and ms[0][0] == 1 and ms[0][1] == ("variogram[i]",) and sorted(ms[0][2]) in (sorted(("2.0", "max(counts[i], 1)")), sorted(("2", "max(counts[i], 1)")))
     ctx.check(okm, rule, EST + "::normalization_matheron", "variogram[i] becomes variogram[i] / (2 * max(count, 1)): %s" % got[:120], "matheron-quotient")
+    # the per-pair estimators: Matheron adds the squared difference itself (the factor 1/2 lives in the normalisation, once), Cressie sqrt(|difference|)
+    for est, want in (("estimator_matheron", [(1, ("f_diff", "f_diff"), ())]), ("estimator_cressie", None)):
+        efn = prog.func(EST, est)
+        par = efn.args.args[0].arg if efn.args.args else "f_diff"
+        rets = [r for r in efn.body if isinstance(r, ast.Return)]
+        if len(rets) != 1:
+            ctx.violation(rule, "%s::%s" % (EST, est), "estimator is not a single returned expression", "estimator-term")
+            continue
+        if want is not None:
+            ms = small.monomials(rets[0].value)
+            ok_e = ms == [(1, (par, par), ())] or ast.unparse(rets[0].value) == "%s ** 2" % par
+        else:
+            ok_e = ast.unparse(rets[0].value) in ("sqrt(fabs(%s))" % par, "sqrt(abs(%s))" % par, "fabs(%s) ** 0.5" % par)
+        ctx.check(ok_e, rule, "%s::%s" % (EST, est), "per-pair term is %s: %s" % ("the squared difference (no further factor)" if want is not None else "sqrt(|difference|)", ast.unparse(rets[0].value)), "estimator-term")
     # the axis kernels visit every cell pair: no `break` (the only documented early exit of the pair kernels is the separated-directions break of `directional`)
     for k in ("structured", "ma_structured", "unstructured"):
         kfn = prog.func(EST, k)
@@ -330,6 +344,7 @@ def run(ctx):
     _K.accumulator_reset(ctx, rule="R08.9")
     _K.accumulator_complete(ctx, rule="R08.9")
     _K.build_independent(ctx, rule="R08.9")
+    _K.kernel_shape(ctx, rule="R08.9")
     _K.zero_init(ctx, rule="R08.9")
     _K.full_extent(ctx, rule="R08.9")  # every field row / point pair is visited
     from . import C15_bounds
